@@ -267,6 +267,42 @@ def inject_reuse(rng, e):
                 'generic_middle': generic is not None}
 
 
+def inject_bound_clash(rng, e):
+    """mode (c): a quantified variable required at two disjoint primitive kinds, at the same or at different nesting
+    levels of its binder's condition; (e', info, well-typed twin) - the twin uses the variable twice at one kind"""
+    K1, K2 = rng.sample(('BOOL', 'NUMBER', 'STRING'), 2)
+    v, w, z = 'qv', 'qw', 'qz'
+    dom, dom2 = A.fld('qdom'), A.fld('qdom2')  # array fields whose element type nothing else fixes
+    shape = gen.pick(rng, ('same-level', 'outer-and-nested', 'nested-and-outer', 'sibling-nested', 'nested-domain'))
+    q1, q2 = gen.pick(rng, ('forall', 'exists')), gen.pick(rng, ('forall', 'exists'))
+
+    def block(Ka, Kb):
+        ua, ub = USES[Ka](A.var(v)), USES[Kb](A.var(v))
+        uw = ('bin', '>', A.var(w), A.num('0'))
+        uz = ('bin', '<', A.var(z), A.num('5'))
+        if shape == 'same-level':
+            body = ('bin', 'and', ua, ub)
+        elif shape == 'outer-and-nested':
+            body = ('bin', 'and', ua, ('quant', q2, w, dom2, ('bin', 'and', uw, ub)))
+        elif shape == 'nested-and-outer':
+            body = ('bin', 'and', ('quant', q2, w, dom2, ('bin', 'and', uw, ua)), ub)
+        elif shape == 'sibling-nested':
+            body = ('bin', 'and', ('quant', q2, w, dom2, ('bin', 'and', uw, ua)),
+                    ('quant', q2, z, dom2, ('bin', 'and', uz, ub)))
+        else:  # the second use sits in the domain of a nested quantifier
+            if Kb != 'NUMBER':
+                body = ('bin', 'and', ua, ('quant', q2, w, ('set', (('call', 'int', (A.num('1'),)), A.num('2'))),
+                                          ('bin', 'and', uw, ub)))
+            else:
+                body = ('bin', 'and', ua, ('quant', q2, w, ('range', A.num('0'), A.var(v), False, False), uw))
+        return ('quant', q1, v, dom, body)
+
+    first = rng.random() < 0.5
+    e2 = ('bin', 'and', block(K1, K2), e) if first else ('bin', 'and', e, block(K1, K2))
+    twin = ('bin', 'and', block(K1, K1), e) if first else ('bin', 'and', e, block(K1, K1))
+    return e2, {'mode': 'c', 'shape': shape, 'first_use': K1, 'second_use': K2, 'via': 'bound-variable'}, twin
+
+
 def run(ctx):
     rng = ctx.rng
     n = ctx.share(BUDGET[ctx.tier])
@@ -287,7 +323,13 @@ def run(ctx):
         if not A.renderable(e) or e[0] == 'lit':
             continue
         mode_b = rng.random() < 0.35
-        if mode_b:
+        base_e = e
+        if i % 8 == 7:
+            level = gen.pick(rng, ('condition', 'predicate', 'property'))
+            inj = inject_bound_clash(rng, e)
+            base_e = inj[2]
+            inj = inj[:2]
+        elif mode_b:
             level = gen.pick(rng, ('condition', 'predicate', 'property'))
             inj = inject_reuse(rng, e)
         else:
@@ -300,7 +342,7 @@ def run(ctx):
         if not A.renderable(e2):
             ctx.skip('not-renderable')
             continue
-        base_text = text_for(level, e)
+        base_text = text_for(level, base_e)
         ob = hplapi.outcome(P[level].parse, base_text)
         if ob[0] != 'ok':
             ctx.skip('base-rejected:' + type(ob[1]).__name__)
@@ -309,12 +351,14 @@ def run(ctx):
         feats = A.features(e2) | {'api:parse_' + level, 'shape:mode-' + info['mode']}
         if info['mode'] == 'b':
             feats.add('shape:definite-via-' + info['via'])
+        elif info['mode'] == 'c':
+            feats.add('shape:bound-variable-' + info['shape'])
         else:
             feats.add('shape:slot-' + info['slot'])
         ctx.begin_case(feats)
         o = hplapi.outcome(P[level].parse, text)
         cls = hplapi.exc_class(o)
-        sig = '|'.join(str(info.get(k)) for k in ('mode', 'slot', 'kind', 'depth', 'via', 'first_use', 'second_use')) + '|' + level
+        sig = '|'.join(str(info.get(k)) for k in ('mode', 'slot', 'kind', 'depth', 'via', 'first_use', 'second_use', 'shape')) + '|' + level
         ctx.evaluation(sig, True)
         ctx.count('mode_' + info['mode'])
         if level == 'property':
